@@ -497,12 +497,12 @@ def replay(ctx, case):
     post(ctx, None)
 
 
-LEVEL_TEXT = ('Explicit-state exploration of compile histories on the real modules: 39 operations (parse / parse+compile / compile twice from one rules object, over 13 programs covering '
-              'functors, every recursion mode, @Iteration, @Ground, imports, type-checked psql, duckdb, bigquery, flags, and a program switching on experimental syntax plus one whose parse '
+LEVEL_TEXT = ('Explicit-state exploration of compile histories on the real modules: 84 operations (parse / parse+compile / compile twice from one rules object, over 28 programs covering '
+              'functors, every recursion mode, @Iteration, @Ground, imports, type-checked psql, duckdb, bigquery, UDFs, flags (also inside an annotation: one text, two defaults), pairs of programs that use the same predicate names in different roles, a 107-character predicate name, two independent iterative components, and a program switching on experimental syntax plus one whose parse '
               'differs under that switch); every ordered pair of operations is executed by fork() from the process holding the state and compared with a pristine-process baseline, deeper '
               'histories only through module states not seen earlier (generic hash of every module/class-level attribute). Every generated program and a corpus of integration programs is '
               're-compiled in fresh subprocesses under each listed PYTHONHASHSEED and the scripts compared byte for byte (stop-file timestamp masked).')
-LEVEL_NOTE = 'Trusted: os.fork() giving an exact copy of the state; the masking regex for the stop-file name. Bounded: 13 programs, history depth 2 (3 via new states), listed seeds only.'
+LEVEL_NOTE = 'Trusted: os.fork() giving an exact copy of the state; the masking regex for the stop-file name. Bounded: 28 programs (quick leaves out 7), history depth 2 (3 via new states), listed seeds only.'
 
 
 if __name__ == '__main__':
